@@ -112,9 +112,14 @@ def check_cases(cases: list[dict], rep: Report, known: dict) -> None:
     work = []
     for c in cases:
         e, m = wire.build_raw(c["e"]), wire.build_raw(c["m"])
-        work.append((c, e, m, b.ask(f"F0 render {c['e']}")))
+        vs = sorted(e._variable_names) or ["x"]
+        pt = {n: 0.5 + k for k, n in enumerate(vs)}
+        asks = {"Partial": b.ask(f"F0 orender OPA {vs[0]} {c['e']}"), "Differential": b.ask(f"F0 orender ODI {c['e']}"),
+                "Derivative": b.ask(f"F0 orender ODE {c['e']}"),
+                "LocatedDifferential": b.ask(f"F0 orender OL {c['e']} {wire.point(pt)}")} if all(n.isascii() for n in vs) else {}
+        work.append((c, e, m, b.ask(f"F0 render {c['e']}"), asks))
     b.run()
-    for c, e, m, i in work:
+    for c, e, m, i, asks in work:
         rep.case((c["e"],), wire.size(e) >= 3)
         rep.count("origin", c["origin"])
         for k, v in wire.classes(e).items():
@@ -141,12 +146,12 @@ def check_cases(cases: list[dict], rep: Report, known: dict) -> None:
         rep.corr_checked += 1
         if diff:
             rep.corr_break(f"repr differs from the model's rendering: {diff}: {text[:300]}", info)
-        objects(c, e, text, rep)
+        objects(c, e, text, rep, {k: b[j] for k, j in asks.items()})
         rep.sample({"e": c["e"][:120], "repr": text[:200]})
     points(rep)
 
 
-def objects(c, e, text: str, rep: Report) -> None:
+def objects(c, e, text: str, rep: Report, model: dict) -> None:
     vs = sorted(e._variable_names) or ["x"]
     p = Point(**{n: 0.5 + i for i, n in enumerate(vs)})
     objs = [
@@ -162,6 +167,12 @@ def objects(c, e, text: str, rep: Report) -> None:
         if r[0] != "ok" or r[1][0] != expect or r[1][1] != expect:
             rep.violation(f"{type(o).__name__} prints as {r!r}, expected {expect[:200]}", dict(c))
             continue
+        if type(o).__name__ in model:
+            diff = tokens_equal(py_tokens(r[1][0]), model_tokens(parse_answer(model[type(o).__name__])[1]))
+            rep.corr_checked += 1
+            rep.count("object-repr-vs-model", type(o).__name__ + (":differs" if diff else ":match"))
+            if diff:
+                rep.corr_break(f"{type(o).__name__} repr differs from the model's rendering: {diff}: {r[1][0][:300]}", dict(c))
         if isinstance(o, sm.LocatedDifferential):
             if any(f"n={k}" in text for k in (10 ** 6, 2 ** 40)):
                 continue        # evaluating the printed text would really differentiate x ** (2 ** 40)
